@@ -105,6 +105,12 @@ type pcase struct {
 	SubType string `json:"want_subtype"`
 	// Mutation is non-empty for a path that was pushed out of the layout.
 	Mutation string `json:"mutation,omitempty"`
+	// Systematic single mutation (sys.go): the verdict comes from the reference
+	// grammar, not from the way the path was made.
+	Sys  bool   `json:"systematic,omitempty"`
+	Op   string `json:"operator,omitempty"`
+	Comp string `json:"component,omitempty"`
+	Head bool   `json:"in_repository_part,omitempty"`
 }
 
 // build lists every layout path of one repository (the builder / reference).
@@ -317,9 +323,45 @@ type result struct {
 	fails          []failure
 	parseLenient   bool // mutated path accepted by ParsePath, rejected by an extractor
 	extractorCalls int
+	verdict        verdict // systematic mutations: set of the reference grammar
+	accepted       bool    // systematic mutations: ParsePath and every extractor accepted
 }
 
 func checkCase(c pcase) (res result) {
+	if c.Sys {
+		// Systematic single mutation: the reference grammar decides what the
+		// statement demands of this path.
+		ref, v := refVerdict(c.Path)
+		switch v {
+		case vWellFormed:
+			// The mutated path is itself a path built from valid components: first
+			// clause of the statement, with the components of the reference parse.
+			res = checkCase(ref)
+			for i := range res.fails {
+				res.fails[i].detail["derived_from"] = c
+			}
+			res.verdict = v
+			return res
+		case vUndecided:
+			// Structure intact, a name is not a valid name (or layout path under
+			// another root only): run the real code (panics are still violations),
+			// no oracle on the answer.
+			u := c
+			u.Mutation = ""
+			u.Sys = false
+			r := checkCase(u)
+			res.extractorCalls = r.extractorCalls
+			for _, f := range r.fails {
+				if strings.HasPrefix(f.fp, "path parsing: panics") {
+					f.detail["case"] = c
+					res.fails = append(res.fails, f)
+				}
+			}
+			res.verdict = v
+			return res
+		}
+		res.verdict = v
+	}
 	addFail := func(fn, clause string, extra map[string]interface{}) {
 		d := map[string]interface{}{"case": c, "function": fn}
 		for k, v := range extra {
@@ -413,10 +455,17 @@ func checkCase(c pcase) (res result) {
 		// than the layout by design: anything of the shape
 		// _manifests/(tags|revisions)/.../link, and digest well-formedness (left to
 		// the digest extractors).
-		if c.Mutation != "malformed digest" && !reManifestEnvelope.MatchString(c.Path) {
+		exempt := c.Mutation == "malformed digest" || reManifestEnvelope.MatchString(c.Path)
+		if c.Sys && (c.Comp == "digest" || c.Head) {
+			// digest well-formedness is left to the digest extractors; the part
+			// repositories/<repository> is GetRepo's, ParsePath looks at the section tail.
+			exempt = true
+		}
+		if !exempt {
 			addFail("ParsePath", "classifies a path that does not follow the layout", map[string]interface{}{"got": []string{pt.String(), string(st)}})
 		}
 	}
+	res.accepted = !rejected
 	return res
 }
 
@@ -477,7 +526,7 @@ func main() {
 	}
 
 	runtime.GOMAXPROCS(evid.Workers())
-	maxComp, budget := 2, 50*time.Second
+	maxComp, budget := 2, 150*time.Second
 	if run.Thorough() {
 		maxComp, budget = 3, 800*time.Second
 	} else {
@@ -488,23 +537,51 @@ func main() {
 	deadline := time.Now().Add(budget)
 
 	var mu sync.Mutex
+	var dump *os.File // debugging aid: C38_DUMP_FAILS=<file> lists every failing case
+	if p := os.Getenv("C38_DUMP_FAILS"); p != "" {
+		var err error
+		if dump, err = os.Create(p); err != nil {
+			run.Fatal(err)
+		}
+		defer dump.Close()
+	}
 	worst := map[string]failure{}
 	worstKey := map[string]string{}
 	nPerFp := map[string]int64{}
 	perKind := map[string]int64{}
 	perMutation := map[string]int64{}
 	var built, mutated, mutationBases, lenient, skipped, extractorCalls int64
+	var sysBases, sysMutated, sysAcceptedWF, sysRejectedNL int64
+	sysPerVerdict := map[string]int64{}
+	sysPerOp := map[string]int64{}
+	sysPerComp := map[string]int64{}
 
 	process := func(cases []pcase, withMut bool) {
 		lk := map[string]int64{}
 		lm := map[string]int64{}
-		var nb, nm, nl, ne, nmb int64
+		var nb, nm, nl, ne, nmb, nsb, nsm, nswf, nsnl int64
+		lv := map[string]int64{}
+		lo := map[string]int64{}
+		lc := map[string]int64{}
 		var fails []struct {
 			f failure
 			k string
 		}
 		handle := func(c pcase) {
 			r := checkCase(c)
+			if c.Sys {
+				lv[r.verdict.String()]++
+				switch r.verdict {
+				case vWellFormed:
+					if len(r.fails) == 0 {
+						nswf++
+					}
+				case vNotLayout:
+					if !r.accepted {
+						nsnl++
+					}
+				}
+			}
 			ne += int64(r.extractorCalls)
 			if r.parseLenient {
 				nl++
@@ -521,12 +598,31 @@ func main() {
 				nb++
 				lk[c.Kind]++
 				run.Distinct(c.Path)
+				// self-check: the reference grammar reads every built path as the
+				// kind and components the builder used
+				if ref, v := refVerdict(c.Path); v != vWellFormed || ref != c {
+					run.Fatal(fmt.Errorf("reference grammar disagrees with the builder on %s: %s %+v", c.Path, v, ref))
+				}
 				handle(c)
 				if withMut && mutationBase(c) {
 					nmb++
 					for _, m := range mutations(c) {
+						// self-check of the reference grammar: every scripted
+						// mutation leaves the layout under every reading
+						if _, v := refVerdict(m.Path); v != vNotLayout {
+							run.Fatal(fmt.Errorf("reference grammar says %s for scripted mutation %q: %s", v, m.Mutation, m.Path))
+						}
 						nm++
 						lm[m.Mutation]++
+						handle(m)
+					}
+				}
+				if withMut && sysBase(c) {
+					nsb++
+					for _, m := range sysMutations(c) {
+						nsm++
+						lo[m.Op]++
+						lc[m.Comp]++
 						handle(m)
 					}
 				}
@@ -536,8 +632,21 @@ func main() {
 				handle(c)
 			}
 		}
-		run.Eval(int(nb + nm))
+		run.Eval(int(nb + nm + nsm))
 		mu.Lock()
+		sysBases += nsb
+		sysMutated += nsm
+		sysAcceptedWF += nswf
+		sysRejectedNL += nsnl
+		for k, v := range lv {
+			sysPerVerdict[k] += v
+		}
+		for k, v := range lo {
+			sysPerOp[k] += v
+		}
+		for k, v := range lc {
+			sysPerComp[k] += v
+		}
 		built += nb
 		mutated += nm
 		mutationBases += nmb
@@ -550,6 +659,9 @@ func main() {
 			perMutation[k] += v
 		}
 		for _, f := range fails {
+			if dump != nil {
+				fmt.Fprintf(dump, "%s\t%s\n", f.f.fp, f.k)
+			}
 			nPerFp[f.f.fp]++
 			if cur, ok := worstKey[f.f.fp]; !ok || f.k < cur {
 				worstKey[f.f.fp] = f.k
@@ -618,6 +730,13 @@ func main() {
 	run.Set("mutated_paths_per_mutation", perMutation)
 	run.Set("mutated_accepted_by_ParsePath_but_rejected_by_extractor", lenient)
 	run.Set("extractor_calls", extractorCalls)
+	run.Set("systematic_mutation_bases", sysBases)
+	run.Set("systematic_mutated_paths", sysMutated)
+	run.Set("systematic_mutated_paths_per_reference_verdict", sysPerVerdict)
+	run.Set("systematic_mutated_paths_per_operator", sysPerOp)
+	run.Set("systematic_mutated_paths_per_component", sysPerComp)
+	run.Set("systematic_wellformed_accepted_with_exact_components", sysAcceptedWF)
+	run.Set("systematic_notlayout_rejected", sysRejectedNL)
 	var ru syscall.Rusage
 	if syscall.Getrusage(syscall.RUSAGE_SELF, &ru) == nil {
 		run.Set("cpu_s", float64(ru.Utime.Sec+ru.Stime.Sec)+float64(ru.Utime.Usec+ru.Stime.Usec)/1e6)
